@@ -799,6 +799,13 @@ public:
             {
                 o["callee"] = nullptr;
                 o["name"] = "?";
+                // call through a pointer to member: (obj.*pm)(args) / (ptr->*pm)(args)
+                if (auto* bo = dyn_cast<BinaryOperator>(calleeE))
+                    if (bo->getOpcode() == BO_PtrMemD || bo->getOpcode() == BO_PtrMemI)
+                    {
+                        o["fn"] = JE(bo->getRHS());
+                        o["ptrmem"] = true;
+                    }
             }
             if (auto* me = dyn_cast<MemberExpr>(calleeE))
             {
